@@ -63,6 +63,7 @@ type raceReq struct {
 	pinned  bool // the reply must be pinned to rxIf (link-local peer / broadcast)
 	unanswered bool // a datagram of a kind the server never answers
 	storm      bool // part of the refresh storm (replies are only checked for the echo)
+	l2storm    bool   // part of a link-level storm (static client, answered with a raw frame)
 	l2link     string // DHCPv4 answered at link level: the interface the request arrived on (ve0|vf0)
 	relay      byte   // DHCPv4: last byte of the relay address 10.9.9.x the request came through
 	opt82      []byte // relay agent information this relay added
@@ -173,7 +174,9 @@ func (raceEngine) Run(ctx *fw.Ctx, cs any) {
 				p := pkt.Request4(r.xid, r.mac, byte(1+2*rng.Intn(2)), pkt.O4(55, 1, 3, 6, 51), pkt.O4(12, []byte(fmt.Sprintf("h-%x", r.mac))...), pkt.O4(61, append([]byte{1}, r.mac...)...))
 				if netns && !r.static && rng.Intn(4) == 0 {
 					// neither relayed nor broadcast nor renewing: answered with a raw Ethernet frame on the arrival link
-					r.l2link = []string{"ve0", "vf0"}[rng.Intn(2)]
+					// (a fifth of them arrive on vd0, a link that is down: sending their reply fails, which must not
+					// cost any other client its reply)
+					r.l2link = []string{"ve0", "vf0", "ve0", "vf0", "vd0"}[rng.Intn(5)]
 					cr = ChainReq{Hex: hex.EncodeToString(p.Bytes()), RxIfName: r.l2link, Peer: "0.0.0.0", Port: 68, Async: true}
 				} else if rng.Intn(3) == 0 { // not relayed, broadcast flag: broadcast reply pinned to the arrival interface
 					p.Flags = 0x8000
@@ -217,6 +220,24 @@ func (raceEngine) Run(ctx *fw.Ctx, cs any) {
 		// a synchronous separator ends the burst
 		job.Reqs = append(job.Reqs, ChainReq{SleepMs: 1})
 		reqs = append(reqs, nil)
+	}
+	// link-level storms: bursts of requests from the statically mapped clients (always answered) that are
+	// answered with raw Ethernet frames, a quarter of them arriving on vd0, a link that is down, so that their
+	// sends fail while the others are in flight. Every request that arrived on a working link must get its frame.
+	if netns {
+		for round := 0; round < 4; round++ {
+			for j := 0; j < 48; j++ {
+				xid++
+				r := &raceReq{xid: xid & 0xffffff, static: true, macIdx: j % raceStaticMacs, l2storm: true}
+				r.mac = refreshMac(r.macIdx)
+				r.l2link = []string{"ve0", "vf0", "ve0", "vd0"}[(j+round)%4]
+				p := pkt.Request4(r.xid, r.mac, 1, pkt.O4(55, 1, 3, 6))
+				reqs = append(reqs, r)
+				job.Reqs = append(job.Reqs, ChainReq{Hex: hex.EncodeToString(p.Bytes()), RxIfName: r.l2link, Peer: "0.0.0.0", Port: 68, Async: true})
+			}
+			job.Reqs = append(job.Reqs, ChainReq{SleepMs: 1})
+			reqs = append(reqs, nil)
+		}
 	}
 	// a refresh storm: both lease files are rewritten (same version, so nothing changes for the oracles)
 	// every 50 us while a long burst of requests from clients that are NOT in the files is in flight -
@@ -339,6 +360,10 @@ func (raceEngine) Run(ctx *fw.Ctx, cs any) {
 		}
 		br := r.Burst
 		var burstReqs []*raceReq
+		boundBefore := map[string]bool{}
+		for k := range lease.Bind {
+			boundBefore[k] = true
+		}
 		for k := 0; k < br.N; k++ {
 			rq := reqs[pos+k]
 			rq.call, rq.ret = br.Call[k], br.Ret[k]
@@ -478,6 +503,8 @@ func (raceEngine) Run(ctx *fw.Ctx, cs any) {
 				}
 				answeredRelay[relayKey{m.Xid, toRelay}]++
 				ctx.Count("race.relayed_replies_checked", 1)
+				rq = want // the copy this reply answers: its own call/return times, not the twin's
+
 			}
 			answered[key{false, m.Xid}]++
 			if rq.pinned {
@@ -533,8 +560,22 @@ func (raceEngine) Run(ctx *fw.Ctx, cs any) {
 					ctx.Viol(pr, "reply-pinned-to-other-datagrams-interface", "%s: request %#x arrived on %s, its link-level reply left on the link whose peer is %s", desc, m.Xid, rq.l2link, f.If)
 				}
 			}
+			if rq.static {
+				continue
+			}
 			if sig, msg := lease.Judge(clientKey(rq.mac), true, net.IP(m.Yi[:])); sig != "" && sig != "served-beyond-capacity" {
 				ctx.Viol("C16", "lease:"+sig, "%s: %s", desc, msg)
+			}
+		}
+		for _, rq := range burstReqs {
+			if rq.l2link == "vd0" {
+				ctx.Count("race.l2_requests_on_down_link", 1)
+			}
+			if (rq.l2link == "ve0" || rq.l2link == "vf0") && (rq.static || boundBefore[clientKey(rq.mac)]) {
+				ctx.Count("race.l2_requests_that_must_be_answered", 1)
+				if l2seen[rq.xid] == 0 {
+					ctx.Viol("C16", "l2-reply-missing", "%s: client %x (statically mapped=%v, held an address before the burst=%v) sent request %#x on %s (answered at link level); no reply frame left on that link, although the same request handled alone is answered", desc, rq.mac, rq.static, boundBefore[clientKey(rq.mac)], rq.xid, rq.l2link)
+				}
 			}
 		}
 		for x, n := range l2seen {
